@@ -221,6 +221,7 @@ type OpResult struct {
 	Sentinel        *sentinelErr
 	PanicVal        any
 	DisposalN       int
+	ViaRoot         bool // issued on the provider's root scope instead of the provider itself
 }
 
 // classify an error returned by godi.
@@ -710,6 +711,21 @@ func (h *H) ctorBody(r *Reg, ft reflect.Type, args []reflect.Value) []reflect.Va
 		if i == nilIdx {
 			made = append(made, reflect.Zero(r.Outs[i].T.RT()))
 			continue
+		}
+		if r.SameObj && i > 0 && r.Outs[i].T.IsIface() {
+			// one object under two results, e.g. func() (*Impl, Iface) { x := &Impl{}; return x, x }
+			shared := false
+			for k := 0; k < i; k++ {
+				if k != nilIdx && made[k].Type().AssignableTo(r.Outs[i].T.RT()) {
+					made = append(made, made[k])
+					inv.SharedOuts++
+					shared = true
+					break
+				}
+			}
+			if shared {
+				continue
+			}
 		}
 		made = append(made, h.newOut(r, i, inv))
 	}
